@@ -61,13 +61,18 @@ def main():
         pid, k = d.split(os.sep)[-3:-1]
         if not sel or pid in sel or "%s/%s" % (pid, k) in sel:
             entries.append((pid, k))
-    rp = os.path.join(SEEDED, "results.json")
+    # VERIF_SEEDED_RESULTS=<file>: write the verdicts of this run (e.g. at another VERIF_SEED) to another file and leave
+    # results.json / RESULTS.md alone
+    alt = os.environ.get("VERIF_SEEDED_RESULTS")
+    rp = alt or os.path.join(SEEDED, "results.json")
     results = json.load(open(rp)) if os.path.exists(rp) else {}
     with ThreadPoolExecutor(jobs) as ex:
         for (pid, k), res in ex.map(lambda e: run_one(e, tier), entries):
             results["%s/%s" % (pid, k)] = dict(tier=tier, checks=res)
             print(pid, k, json.dumps({p: v.get("verdict") if isinstance(v, dict) else v for p, v in res.items()}), flush=True)
     json.dump(results, open(rp, "w"), indent=1, sort_keys=True)
+    if alt:
+        return 0
     with open(os.path.join(SEEDED, "RESULTS.md"), "w") as f:
         f.write("# Seeded property-breaking changes and what the checks say about them\n\n"
                 "Produced by fresh sub-agents that saw only the property text and a scratch worktree of /repo. Every change\n"
